@@ -379,6 +379,7 @@ def c10_r2(ctx):
     if len(uvars) != 1:
         raise AnalysisError("from_bytes: expected one local bound to _struct.unpack(...)")
     uvar = uvars[0]
+    udef = norm.deep_canon(ast.Name(id=uvar, ctx=ast.Load()), fb.node)
     # the flags local: the one tested to choose between inline postings and (offset, length)
     fl = [st for st in ast.walk(fb.node) if isinstance(st, ast.If) and isinstance(st.test, ast.Name)
           and any("_inlined" in norm.stmt_text(x) for x in st.body)]
@@ -389,16 +390,18 @@ def c10_r2(ctx):
             tgt = norm.canon(st.targets[0])
             if isinstance(st.targets[0], ast.Name):
                 tgt = "flags" if st.targets[0].id == flagvar else "?local " + tgt
-            for n in ast.walk(st.value):
-                if isinstance(n, ast.Subscript) and norm.canon(n.value) == uvar and isinstance(n.slice, ast.Constant):
+            if isinstance(st.targets[0], ast.Name) and st.targets[0].id != flagvar:
+                continue        # a plain local that only names an unpacked field: read where it is used
+            for n in ast.walk(norm.inline_defs(st.value, fb.node)):
+                if isinstance(n, ast.Subscript) and norm.canon(n.value) in (uvar, udef) and isinstance(n.slice, ast.Constant):
                     rroles.setdefault(n.slice.value, set()).add(role(tgt))
     rlist = [sorted(rroles.get(i, {"?"}))[0] if len(rroles.get(i, [])) == 1 else "?" for i in range(len(chars))]
     ctx.ob(cls, len(wroles) == len(chars) and wroles == rlist, "to_bytes packs and from_bytes unpacks the same fields in struct order",
            detail="format %s; packed %s; unpacked %s" % (fmt, wroles, rlist), loc=tb.loc)
     # length bytes
     l2b = [norm.canon(c.args[0]) for c in norm.calls_in(tb.node) if norm.call_name(c) == "length_to_byte"]
-    b2l = [norm.canon(c.args[0]) for c in norm.calls_in(fb.node) if norm.call_name(c) == "byte_to_length"]
-    ctx.ob(cls, len(l2b) == 2 and b2l == ["%s[3]" % uvar, "%s[4]" % uvar] and wroles[3:5] == ["minlength", "maxlength"],
+    b2l = [norm.deep_canon(c.args[0], fb.node) for c in norm.calls_in(fb.node) if norm.call_name(c) == "byte_to_length"]
+    ctx.ob(cls, len(l2b) == 2 and b2l in (["%s[3]" % uvar, "%s[4]" % uvar], ["%s[3]" % udef, "%s[4]" % udef]) and wroles[3:5] == ["minlength", "maxlength"],
            "both length fields go through length_to_byte / byte_to_length", detail="%s / %s" % (l2b, b2l), loc=tb.loc)
     sent_w = norm.stmt_text(tb.node).count("4294967295")
     sent_r = norm.stmt_text(fb.node).count("4294967295")
@@ -408,6 +411,21 @@ def c10_r2(ctx):
         any("_offset" in norm.stmt_text(x) for x in fl[0].orelse)
     wl = [st for st in ast.walk(tb.node) if isinstance(st, ast.If) and norm.deep_canon(st.test, tb.node) == "self.is_inlined()"]
     okw = bool(wl) and any("_inlined" in norm.stmt_text(x) for x in wl[0].body) and any("_offset" in norm.stmt_text(x) for x in wl[0].orelse)
+    if not okw:
+        # second spelling: early return instead of else -- read the branch facts where the two tails are built
+        fw = guards.Facts(tb, textfn=lambda e: norm.deep_canon(e, tb.node))
+        seen_in = seen_off = 0
+        okw = True
+        for n_ in fw.g.nodes:
+            t_ = " ".join(norm.canon(e_) for e_ in cfgmod.node_exprs(n_))
+            facts_ = fw.at(n_) or set()
+            if "dumps(self._inlined" in t_:
+                seen_in += 1
+                okw = okw and ("T", "self.is_inlined()") in facts_
+            if "self._offset" in t_:
+                seen_off += 1
+                okw = okw and ("F", "self.is_inlined()") in facts_
+        okw = okw and seen_in >= 1 and seen_off >= 1
     ctx.ob(cls, okf and okw, "inlined flag selects inline postings vs (offset, length) identically when writing and reading", loc=fb.loc)
     # direct readers
     sysmod = prog.module("system")
